@@ -53,6 +53,33 @@ pub fn strings_of(alphabet: usize, len: usize) -> impl Iterator<Item = Vec<usize
     })
 }
 
+/// The i-th string of exactly `len` symbols (same order as `strings_of`), without materialising the list.
+pub fn string_at(alphabet: usize, len: usize, mut i: u64) -> Vec<usize> {
+    let mut v = vec![0usize; len];
+    for k in (0..len).rev() {
+        v[k] = (i % alphabet as u64) as usize;
+        i /= alphabet as u64;
+    }
+    v
+}
+
+/// Number of strings of <= n symbols.
+pub fn count_upto(alphabet: usize, n: usize) -> u64 {
+    (0..=n).map(|l| (alphabet as u64).pow(l as u32)).sum()
+}
+
+/// The i-th string of <= n symbols (same order as `strings_upto`: shortest first).
+pub fn string_upto_at(alphabet: usize, n: usize, mut i: u64) -> Vec<usize> {
+    for len in 0..=n {
+        let c = (alphabet as u64).pow(len as u32);
+        if i < c {
+            return string_at(alphabet, len, i);
+        }
+        i -= c;
+    }
+    panic!("index beyond the number of strings of <= {n} symbols");
+}
+
 /// For each piece (a sub-slice of `input`) mark the input bytes it covers.
 /// Err if a piece is not inside `input`, or pieces overlap / go backwards.
 pub fn emitted_flags(input: &[u8], pieces: &[&[u8]]) -> Result<Vec<bool>, String> {
